@@ -1,10 +1,20 @@
 (* C20 — property theorems only: each closed by [exact lemma], followed by Print Assumptions.
-   Proved: the list scan (argument consumption, results in order), the fixpoint iteration, the ~quote barrier, and
-   the macro-free behaviour of MacroExpand1.  NOT proved (stated as the executable spec [strip] in C20/Model.v and tied to
-   the code only by the harness: stream A direct oracle + correspondence run): that the whole walk equals [strip] on
-   macro-free code, and that at quasiquote depth >= 1 the result is independent of the macro table. *)
+   Proved: the list scan (argument consumption, results in order), the fixpoint iteration, the ~quote barrier, the
+   macro-free behaviour of MacroExpand1, and (Proof2.v) for ALL trees, ALL quasiquote depths and ALL fuels:
+   - C20_macro_free_identity: whenever the whole walk (macroExpandCodewalk) succeeds on code in which no macro name
+     occurs, its result is exactly the executable spec [strip] of the input and "nothing expanded" is reported
+     (side condition: every ~quote form has a body; shown necessary by C20_macro_free_identity_no_body_refuted);
+   - C20_quasiquote_only_unquoted: the result of the walk depends on the macro table only through the parts of the
+     tree at quasiquote depth <= 0 (the unquoted parts).
+   - C20_macro_free_fuel (Proof3.v): on such code the walk never runs out of fuel once fuel > height of the tree,
+     so it returns either the [strip] result or Err.
+   NOT proved: a characterisation of WHEN the walk returns Err on macro-free code (a Set/Append coercion fails, or
+   a quote-like form without body is met below depth 0 or above it) — [strip] may succeed where the walk fails, because the
+   walk also traverses the bodies of quote-like forms and MacroExpand1 coerces every list element; and nothing is
+   proved about the walk of code where macros DO occur at depth <= 0 beyond the per-list theorems above (known
+   findings C20-K1 / C20-K2 live there; they do not affect the theorems below, whose hypotheses exclude macro calls at depth <= 0). *)
 From Coq Require Import List NArith ZArith Bool.
-From Verif Require Import Common.Rose C21.Model C20.Model C20.Proof.
+From Verif Require Import Common.Rose C21.Model C20.Model C20.Proof C20.Proof2 C20.Proof3.
 Import ListNotations.
 Open Scope Z_scope.
 
@@ -40,3 +50,113 @@ Print Assumptions C20_macro_free_identity_partial.
 Theorem C20_leaf_untouched : forall mk macros f qd t, size0 t = true -> walk mk macros (S f) qd t = Ok (t, false).
 Proof. exact leaf_untouched. Qed.
 Print Assumptions C20_leaf_untouched.
+
+(* ---------- the whole walk on macro-free code (Proof2.v) ---------- *)
+(* [macro_free macros t]: no sub-tree of t is, after removing trivial wrappers, an identifier bound to a macro;
+   [quote_bodies t]: every ~quote{..} form in t has a body (true of every parsed tree).
+   For every fuel, every quasiquote depth qd and every tree: if the walk returns Ok r then r is what the spec [strip]
+   computes (same fuel) and the "anything expanded" flag is false. *)
+Theorem C20_macro_free_identity : forall mk macros f qd t r,
+  macro_free macros t -> quote_bodies t ->
+  walk mk macros f qd t = Ok r -> strip mk f t = Ok r /\ snd r = false.
+Proof. exact macro_free_identity. Qed.
+Print Assumptions C20_macro_free_identity.
+
+(* [macro_free] read at the level of identifiers: no identifier of the tree names a macro *)
+Theorem C20_macro_free_is_no_macro_name : forall macros t,
+  AllSub (ident_not_macro macros) t <-> macro_free macros t.
+Proof. exact (fun macros t => conj (macro_free_idents macros t) (idents_macro_free macros t)). Qed.
+Print Assumptions C20_macro_free_is_no_macro_name.
+
+(* the same with the hypothesis of C20_macro_free_identity_partial (nothing at all is a macro call) *)
+Theorem C20_macro_free_identity_table : forall mk macros f qd t r,
+  (forall e, macro_of macros e = None) -> quote_bodies t ->
+  walk mk macros f qd t = Ok r -> strip mk f t = Ok r /\ snd r = false.
+Proof. exact macro_free_identity_table. Qed.
+Print Assumptions C20_macro_free_identity_table.
+
+(* sharper: macro names (and ~quote forms without body) are excluded only from the parts of t that the walk visits at
+   depth <= 0, t itself being visited at depth qd  ([Under P t qd]: P holds of every sub-tree at depth <= 0) *)
+Theorem C20_macro_free_identity_depth : forall mk macros f qd t r,
+  Under (Good macros) t qd -> walk mk macros f qd t = Ok r -> strip mk f t = Ok r /\ snd r = false.
+Proof. exact macro_free_identity_depth. Qed.
+Print Assumptions C20_macro_free_identity_depth.
+
+(* the side condition [quote_bodies] cannot be dropped: the body-less form  Node TUnaryExpr [QUOTE] [nil]  is macro-free,
+   the walk returns it unchanged at depth 0 (the QUOTE barrier does not look inside) but [strip] rejects it.
+   (Such a tree is never produced by the parser; this is a limit of the spec [strip], not a defect of gomacro.) *)
+Theorem C20_macro_free_identity_no_body_refuted : forall mk macros,
+  exists t, macro_free macros t /\ walk mk macros 2 0 t = Ok (t, false) /\ strip mk 2 t = Err.
+Proof. exact macro_free_identity_needs_quote_bodies. Qed.
+Print Assumptions C20_macro_free_identity_no_body_refuted.
+
+(* ---------- fuel (Proof3.v) ---------- *)
+(* on macro-free code the walk never answers OutOfFuel once fuel > height t (the correspondence run uses
+   walk_fuel t = 3 * height t + 40); nothing but exhausted fuel ever produces OutOfFuel *)
+Theorem C20_macro_free_fuel : forall mk macros f qd t,
+  macro_free macros t -> (height t < f)%nat -> walk mk macros f qd t <> OutOfFuel.
+Proof. exact macro_free_fuel. Qed.
+Print Assumptions C20_macro_free_fuel.
+
+(* the same when macro calls are excluded only from the parts of t visited at depth <= 0 *)
+Theorem C20_macro_free_fuel_depth : forall mk macros f qd t,
+  Under (fun s => macro_of macros s = None) t qd -> (height t < f)%nat -> walk mk macros f qd t <> OutOfFuel.
+Proof. exact macro_free_fuel_depth. Qed.
+Print Assumptions C20_macro_free_fuel_depth.
+
+(* together: with enough fuel the walk of macro-free code either returns exactly what [strip] returns, reporting no
+   expansion, or fails with Err (a Set/Append coercion or a quote-like form without body) *)
+Theorem C20_macro_free_total : forall mk macros f qd t,
+  macro_free macros t -> quote_bodies t -> (height t < f)%nat ->
+  (exists x, walk mk macros f qd t = Ok (x, false) /\ strip mk f t = Ok (x, false)) \/ walk mk macros f qd t = Err.
+Proof. exact macro_free_total. Qed.
+Print Assumptions C20_macro_free_total.
+
+(* ---------- quasiquote: code is expanded only where it is unquoted (Proof2.v) ---------- *)
+(* [unquoted_macro_free m1 m2 t qd]: in the parts of t that lie at quasiquote depth <= 0 when t is visited at depth qd
+   (~quasiquote: +1, ~unquote / ~unquote_splice: -1) no macro name of m1 or of m2 occurs; the parts at depth >= 1 are
+   unconstrained and the two tables are unrelated.  Then the walk gives the very same result (Ok, Err or OutOfFuel)
+   with both tables: macro names inside quoted code are never looked up, whatever the tables bind them to. *)
+Theorem C20_quasiquote_only_unquoted : forall mk m1 m2 f qd t,
+  unquoted_macro_free m1 m2 t qd -> walk mk m1 f qd t = walk mk m2 f qd t.
+Proof. exact quasiquote_only_unquoted_strong. Qed.
+Print Assumptions C20_quasiquote_only_unquoted.
+
+(* special case: [Quoted t qd] = no part of t is at depth <= 0 (so qd >= 1 and no unquote nesting reaches depth 0):
+   the result is independent of the macro table altogether ... *)
+Theorem C20_quasiquote_quoted_table_independent : forall mk m1 m2 f qd t,
+  Quoted t qd -> walk mk m1 f qd t = walk mk m2 f qd t.
+Proof. exact quasiquote_only_unquoted. Qed.
+Print Assumptions C20_quasiquote_quoted_table_independent.
+
+(* ... and is the [strip] of the input, nothing expanded *)
+Theorem C20_quasiquote_quoted_is_strip : forall mk macros f qd t r,
+  Quoted t qd -> walk mk macros f qd t = Ok r -> strip mk f t = Ok r /\ snd r = false.
+Proof. exact quoted_is_strip. Qed.
+Print Assumptions C20_quasiquote_quoted_is_strip.
+
+Theorem C20_quoted_depth_positive : forall t qd, Quoted t qd -> 1 <= qd.
+Proof. exact Quoted_depth. Qed.
+Print Assumptions C20_quoted_depth_positive.
+
+(* the hypotheses are satisfiable on non-trivial values *)
+Definition ex_macros (n : N) : option (nat * (list tree -> list tree)) :=
+  if N.eqb n 5 then Some (1%nat, fun args => args) else None.
+Definition ex_ident (n : N) : tree := Node 0 TIdent [n] [].
+Definition ex_form (op : N) (body : list tree) : tree :=
+  Node 0 TUnaryExpr [op] [Some (Node 0 TFuncLit [] [None; Some (Slice 0 SBlock [] body)])].
+(* { (x7); ~quote{ y8 } }  with macro table {5}: macro-free, all quote forms have bodies *)
+Example ex_macro_free :
+  let t := Slice 0 SBlock [] [Node 0 TParenExpr [] [Some (ex_ident 7)]; ex_form QUOTE [ex_ident 8; ex_ident 9]] in
+  macro_free ex_macros t /\ quote_bodies t.
+Proof.
+  unfold macro_free, quote_bodies, ex_form, ex_ident; simpl; unfold quote_ok; simpl.
+  repeat split; try reflexivity; try (intros; discriminate).
+Qed.
+(* ~quasiquote{ m5; ~unquote{ m5 } } visited at depth 1 mentions the macro m5 but only at depths 2 and 1: Quoted *)
+Example ex_quoted : Quoted (ex_form QUASIQUOTE [ex_ident 5; ex_form UNQUOTE [ex_ident 5]]) 1.
+Proof. cbv; intuition. Qed.
+(* ~quasiquote{ m5; ~unquote{ x7 } } visited at depth 0: the macro name m5 occurs at depth 1 only *)
+Example ex_unquoted_macro_free :
+  unquoted_macro_free ex_macros (fun _ => None) (ex_form QUASIQUOTE [ex_ident 5; ex_form UNQUOTE [ex_ident 7]]) 0.
+Proof. cbv; intuition. Qed.
